@@ -168,12 +168,54 @@ def gen_mux(rng, tier, long_run=False):
     return {'cfg': cfg, 'calls': calls}
 
 
+def gen_frag(rng, tier):
+    vc = rng.choice(['h264', 'h265', 'av1', 'vp9'])
+    cfg = {'vc': vc, 'w': 640, 'h': 480, 'timescale': rng.choice([90000, 90000, 1000, 48000]), 'fragms': rng.choice([100, 500, 2000]),
+           'via': 'config', 'unit': 1, 'unit1': True,
+           'facets': {'bytes': True, 'timing': True, 'tree': True, 'raw': False}}
+    if vc in ('h264', 'h265'):
+        cfg['sps'] = SPS_A
+        cfg['pps'] = PPS_A
+    if vc == 'h265':
+        cfg['vps'] = HVPS
+    if vc == 'av1':
+        cfg['av1'] = [0x0a, len(AV1_SEQ)] + AV1_SEQ
+    if vc == 'vp9':
+        cfg['vp9'] = {'width': 640, 'height': 480, 'profile': 0, 'bit_depth': 8, 'color_space': 1, 'transfer_function': 1,
+                      'matrix_coefficients': 1, 'level': 10, 'full_range_flag': 0}
+    n = rng.randrange(1, 30 if tier == 'quick' else 100)
+    calls = []
+    dts = rng.choice([0, 0, 9000, rng.randrange(0, 100000)])
+    cadence = rng.choice([3000, 3003, 'vfr', 'eq'])
+    for i in range(n):
+        r = rng.random()
+        if r < 0.12:
+            calls.append({'op': 'ff'})
+        elif r < 0.17:
+            calls.append({'op': 'fr'})
+        elif r < 0.2:
+            calls.append({'op': 'fd'})
+        elif r < 0.24:
+            calls.append({'op': 'fi'})
+        if rng.random() < 0.05 and dts > 10:
+            bad = dts - rng.randrange(1, 10)
+            calls.append({'op': 'fw', 'pts': bad, 'dts': bad, 'data': pad(rng, 3), 'sync': False})
+        cts = rng.choice([0, 0, 3000, 6000, -1500 if dts >= 1500 else 0])
+        calls.append({'op': 'fw', 'pts': dts + cts, 'dts': dts, 'data': pad(rng, rng.randrange(0, 40)), 'sync': rng.random() < 0.2})
+        dts += cadence if isinstance(cadence, int) else (rng.randrange(0, 9000) if cadence == 'vfr' else rng.choice([0, 3000]))
+    calls.append({'op': 'ff'})
+    calls.append({'op': 'fi'})
+    return {'kind': 'frag', 'cfg': cfg, 'calls': calls}
+
+
 def generate(kind, n, seed, tier):
     rng = random.Random((seed * 1000003) ^ hash(kind) & 0xffff if False else seed * 1000003 + sum(map(ord, kind)))
     out = []
     for _ in range(n):
         if kind == 'mux':
             out.append(gen_mux(rng, tier))
+        elif kind == 'frag':
+            out.append(gen_frag(rng, tier))
         elif kind == 'mux_long':
             out.append(gen_mux(rng, tier, long_run=True))
         else:
